@@ -73,6 +73,7 @@ for rel, m in sorted(repo.modules.items()):
                             seq.append([x.attr, fn.name, ast.unparse(v) if v is not None and t is x else ""])
         order["%s::%s" % (rel, cn)] = seq
 out["instance_attr_order"] = order
+out["def_order"] = {fi.key: fi.node.lineno for rel, m in repo.modules.items() for fi in m.all_functions()}
 out["refs"] = {k: sorted(v) for k, v in refs.items()}
 out["arity"] = arity
 out["instance_attrs"] = inst
